@@ -135,7 +135,11 @@ G_CODINGS = ["g", "C(g)", "S(g)", "T(g, 'q')", "C(g, Sum)"]
 
 # w takes non-integer values (quarters): a product that is truncated or rounded shows
 SHAPES = ["F", "F + G", "F + x", "F:G", "F + G + F:G", "x + F:G", "0 + F", "0 + F + G", "F:x", "F + F:x",
-          "w + F:w", "F:w", "F + F:w", "w + F + F:w", "0 + F:w"]
+          "w + F:w", "F:w", "F + F:w", "w + F + F:w", "0 + F:w",
+          # group-specific effects: full coding (all level indicators are spanned) unless the SAME grouping factor
+          # has an intercept, whatever other group-specific terms the formula has and in whatever order
+          "x + (0 + F | g)", "x + (F | g)", "x + (x | h) + (0 + F | g)", "x + (0 + F | g) + (x | h)",
+          "x + (1 | h) + (w | h) + (0 + F | g)", "(F | h) + (0 + F | g)"]
 
 
 def _swap_formula(rng, which):
@@ -321,7 +325,11 @@ def oracle(c):
             d = dm.build({"formula": f, "frame": fr})
         except Exception:
             return None
-        mats.append((f, np.asarray(d.common.design_matrix, dtype=float)))
+        X = np.asarray(d.common.design_matrix, dtype=float)
+        if d.group is not None:
+            # the column space of the whole design: common and group-specific columns
+            X = np.column_stack([X, np.asarray(d.group.design_matrix, dtype=float)])
+        mats.append((f, X))
     f0, X0 = mats[0]
     r0 = rank([[Fraction(float(v)).limit_denominator(10 ** 6) for v in row] for row in X0])
     for f, X in mats[1:]:
